@@ -159,7 +159,7 @@ def par_filter(ctx, cases):
     from concurrent.futures import ThreadPoolExecutor
     if not cases:
         return []
-    n = max(1, min(core.JOBS, (len(cases) + 39) // 40))
+    n = max(1, min(core.JOBS * (1 if len(cases) < 6000 else 3), (len(cases) + 39) // 40))
     size = (len(cases) + n - 1) // n
     shards = [(k, cases[k:k + size]) for k in range(0, len(cases), size)]
 
@@ -169,7 +169,8 @@ def par_filter(ctx, cases):
         c.scratch = os.path.join(ctx.scratch, 'shard%d' % k)
         os.makedirs(c.scratch, exist_ok=True)
         prelude = '\n'.join('Definition c%d_ := %s.' % (i, t) for i, t in enumerate(sc))
-        bad = c.coq_filter(REQ, '(fun z : Z => z =? 0)', ['c%d_' % i for i in range(len(sc))], shard=len(sc) + 1, prelude=prelude)
+        bad = c.coq_filter(REQ, '(fun z : Z => z =? 0)', ['c%d_' % i for i in range(len(sc))], shard=len(sc) + 1, prelude=prelude,
+                           timeout=600 if ctx.tier == 'quick' else 3000)
         return [k + i for i in bad]
     ctx.trust('correspondence harness: generated cases.v evaluated with vm_compute by coqc')
     with ThreadPoolExecutor(max_workers=core.JOBS) as ex:
